@@ -193,9 +193,16 @@ deriving Repr
 def setKey (l : List (String × String)) (k v : String) : List (String × String) :=
   if l.any (·.1 == k) then l.map fun kv => if kv.1 == k then (k, v) else kv else l ++ [(k, v)]
 
+/-- identifiers of all property groups of the tree -/
+def Tree.pgUids (t : Tree) : List Nat := t.subs.flatMap fun s => s.ent.pgs.map (·.uid)
+
+/-- the identifier is used by a property group of an entity other than `o` -/
+def Tree.pgUidElsewhere (t : Tree) (o u : Nat) : Bool :=
+  t.subs.any fun s => s.ent.uid != o && s.ent.pgs.any (·.uid == u)
+
 def step (t : Tree) : Op → Tree × Out
   | .create p e =>
-    if t.uids.contains e.uid then (t, .refused)              -- identifier in use: no effect
+    if t.uids.contains e.uid || t.pgUids.contains e.uid then (t, .refused)   -- identifier in use: no effect
     else if !e.pgs.isEmpty then (t, .refused)                -- a new entity has no property group yet
     else if !(t.uids.contains p) then (t, .missing)
     else (t.insert p (.node e []), .ok)
@@ -243,6 +250,7 @@ def step (t : Tree) : Op → Tree × Out
     | none => (t, .missing)
     | some s =>
       if !(g.props.all fun d => (linksL s.kids).contains (Kind.data, d)) then (t, .refused)  -- only children of `o`
+      else if t.uids.contains g.uid || t.pgUidElsewhere o g.uid then (t, .refused)   -- identifier of an entity / of another object's group
       else
         (t.update (fun e => { e with pgs := if e.pgs.any (·.uid == g.uid)
                                             then e.pgs.map fun x => if x.uid == g.uid then g else x
